@@ -165,7 +165,7 @@ def ctor_paths(ctx, cls, overrides=None):
         ov = dict(overrides or {})
         if cls.name == "StatThresholdAnomaliser":
             ov.setdefault("change_detector", lambda ex: OpaqueV("detector", {"kind": "detector"}))
-        kw = symbolic_hyperparams(ex, ctx.P, cls, ov)
+        kw = symbolic_hyperparams(ex, ctx.P, cls, ov, symbolic_bools=True)
         return ex.new_object(cls, [], kw)
 
     return ex, run(ctx, ex, thunk)
@@ -221,6 +221,17 @@ def check_constructor(ctx, pkg, name, cls):
             ctx.check(all(p.exc.exc_name == "ValueError" for p in hits), rule, key, raise_loc(hits[0], loc), f"documented domain '{doc}': the constructor rejects exactly its complement with ValueError", found=[p.exc.exc_name for p in hits], expected=" or ".join(repr(w) for w in want))
         else:
             ctx.violation(rule, key, others[0][0].exc.func.loc(others[0][0].exc.node) if others and others[0][0].exc.func else loc, f"documented domain '{doc}' is not what the constructor enforces" if others else f"documented domain '{doc}' is not checked by the constructor", found=" | ".join(repr(c) for _, c in others) or "no guard on this parameter", expected=" or ".join(repr(w) for w in want))
+        if hits:
+            # ... and on EVERY constructing path: a check that only runs when another hyper-parameter has a certain value
+            # lets values outside the domain through for the other values
+            g0 = fired_guard(hits[0])
+            if g0 is not None:
+                c0 = g0[0]
+                keys = {c0.key, c0.neg().key}
+                skipping = [q for q in ok_paths if not any(cq.key in keys for cq, _v in q.facts)]
+                if skipping:
+                    why = [repr(cq)[:70] for cq, _v in skipping[0].facts if not any(a.key == pv.key for a in atoms_of_cond(cq))][-2:]
+                    ctx.violation(rule, key + "|every-path", loc, f"documented domain '{doc}': {len(skipping)} of {len(ok_paths)} constructing paths never test '{param}' (the check is guarded by another setting): values outside the domain are accepted there", found=f"decided on such a path: {why}", expected="the check on every path of the constructor")
         for p, c in others:
             if hits:
                 ctx.violation(rule, key + "|extra", raise_loc(p, loc), f"an additional guard on '{param}' rejects values inside the documented domain '{doc}' (or accepts values outside it)", found=repr(c), expected=" or ".join(repr(w) for w in want))
